@@ -166,6 +166,30 @@ fn core_blocks(type_idx: usize, seed: &[u8], blocks: usize, sub: &str, id: u64, 
     }
 }
 
+/// Inverse of the REFERENCE step of a linear engine (from the model, not from
+/// the crate), cached per type: used to aim seeds at states whose successor
+/// (or k-th successor) is structured — sparse, zero words, equal words …
+fn model_inverse(name: &'static str, seed_len: usize) -> Option<std::sync::Arc<crate::models::gf2::Mat>> {
+    use crate::models::gf2::{BitVec, Mat};
+    use std::collections::HashMap;
+    use std::sync::{Arc, Mutex, OnceLock};
+    static CACHE: OnceLock<Mutex<HashMap<&'static str, Option<Arc<Mat>>>>> = OnceLock::new();
+    let m = CACHE.get_or_init(|| Mutex::new(HashMap::new()));
+    if let Some(v) = m.lock().unwrap().get(name) {
+        return v.clone();
+    }
+    let n = seed_len * 8;
+    let cols = (0..n).map(|i| {
+        let e = BitVec::unit(n, i).to_bytes();
+        let mut md = RefModel::from_seed(name, &e);
+        md.next();
+        BitVec::from_bytes(&md.state_bytes().unwrap())
+    }).collect();
+    let inv = Mat { n, cols }.inverse().map(Arc::new);
+    m.lock().unwrap().insert(name, inv.clone());
+    inv
+}
+
 fn word_bytes(f: Family) -> usize {
     (f.native_bits() / 8) as usize
 }
@@ -178,7 +202,22 @@ fn case(prop: u32, sub: &str, id: u64, ctx: &Ctx, r: &mut Report) {
         // random / structured seed, short or medium run
         "seedrun" | "longrun" | "deeprun" => {
             with_spec!(ti, S => {
-                let (class, seed) = gen_seed(&mut p, S::SEED_LEN, word_bytes(S::FAMILY), !S::LINEAR);
+                let (mut class, mut seed) = gen_seed(&mut p, S::SEED_LEN, word_bytes(S::FAMILY), !S::LINEAR);
+                // a quarter of the short runs of the linear engines start k steps
+                // BEFORE a structured state (pre-image under the reference step)
+                if S::LINEAR && sub == "seedrun" && p.chance(1, 4) {
+                    if let Some(inv) = model_inverse(S::NAME, S::SEED_LEN) {
+                        let mut v = crate::models::gf2::BitVec::from_bytes(&seed);
+                        for _ in 0..p.range(1, 3) {
+                            v = inv.apply(&v);
+                        }
+                        let s2 = v.to_bytes();
+                        if s2.iter().any(|&b| b != 0) {
+                            seed = s2;
+                            class = "preimage_of_structured";
+                        }
+                    }
+                }
                 let n = match (sub, prop) {
                     ("seedrun", 2) => 2100,          // > 2 table cycles, 131 refills
                     ("seedrun", 3) => 600,           // 3 blocks
@@ -245,6 +284,68 @@ fn case(prop: u32, sub: &str, id: u64, ctx: &Ctx, r: &mut Report) {
                 }
             });
         }
+        // mixed-width access against the MODEL's word stream: next_u32 / next_u64 /
+        // fill_bytes with large and unaligned destinations (bulk paths)
+        "mixed" => {
+            use super::c05::{apply, PFam, Proj};
+            use crate::drive::Op;
+            with_spec!(ti, S => {
+                let (class, seed) = gen_seed(&mut p, S::SEED_LEN, word_bytes(S::FAMILY), !S::LINEAR);
+                let mut model = RefModel::from_seed(S::NAME, &seed);
+                let mut rng = S::from_seed(&seed);
+                let mut proj = Proj::new(PFam::from(S::FAMILY));
+                let mut words: Vec<u64> = Vec::new();
+                let bb = S::FAMILY.block_words() * word_bytes(S::FAMILY);
+                let mut ops = Vec::new();
+                for _ in 0..p.range(4, 16) {
+                    let op = match p.below(10) {
+                        0..=2 => Op::U32,
+                        3..=4 => Op::U64,
+                        5..=6 => Op::Fill(p.below(70) as usize),
+                        _ => Op::Fill(*p.pick(&[bb - 1, bb, bb + 1, 2 * bb, 1023, 1024, 1025, 1100, 2047, 2048, 2049, 2100, 4096, 4097, 5000, 3 * bb + 7])),
+                    };
+                    let want = proj.expect(&op, &mut |k| { while words.len() <= k { words.push(model.next()); } words[k] });
+                    let got = apply(&mut rng, &op);
+                    ops.push(op.clone());
+                    r.eval();
+                    if got != want {
+                        r.violation(format!("{}:mixed_access_vs_model", S::NAME), sub, id, json!({
+                            "type": S::NAME, "seed": hex(&seed), "ops": crate::drive::show_ops(&ops),
+                            "expected": want.show(), "observed": got.show(), "stream_position_after": proj.pos}));
+                        return;
+                    }
+                }
+                r.distinct(hkey(&[&"mixed", &S::NAME, &seed, &crate::drive::show_ops(&ops)]));
+                r.cov(&format!("mixed:{}", S::NAME));
+                r.cov(&format!("seed_class:{}", class));
+            });
+        }
+        // one generator stepped 2^32 + 8 times (position counters narrower than
+        // the period, wrap of any 32-bit bookkeeping); state image at the end
+        "wrap32" => {
+            with_spec!(ti, S => {
+                let (_, seed) = gen_seed(&mut p, S::SEED_LEN, word_bytes(S::FAMILY), !S::LINEAR);
+                let n: u64 = (1u64 << 32) + 8;
+                let mut model = RefModel::from_seed(S::NAME, &seed);
+                let mut rng = S::from_seed(&seed);
+                let mut k = 0u64;
+                while k < n {
+                    let (a, b) = match S::FAMILY {
+                        Family::W32 | Family::Block32(_) => (rng.next_u32() as u64, model.next()),
+                        _ => (rng.next_u64(), model.next()),
+                    };
+                    if a != b {
+                        r.violation(format!("{}:stream:after_2^32_steps", S::NAME), sub, id,
+                            json!({"type": S::NAME, "seed": hex(&seed), "position": k.to_string(), "expected": hx64(b), "observed": hx64(a)}));
+                        return;
+                    }
+                    k += 1;
+                }
+                r.evals(n);
+                r.cov(&format!("wrap32:{}", S::NAME));
+                r.distinct(hkey(&[&"wrap32", &S::NAME, &seed]));
+            });
+        }
         // C03: seed_from_u64(0) reproduces the reference generator used unseeded
         "unseeded" => {
             use crate::models::isaac::{Isaac32, Isaac64};
@@ -308,9 +409,11 @@ pub fn run(prop: u32, ctx: &Ctx, only: Option<&Only>) -> Report {
     total.merge(crate::util::par(ctx.threads, |t, r| {
         let mut k = t as u64;
         while k < nt * max_seed {
-            case(prop, "single_byte", k, ctx, r);
-            if k < nt * 64 {
-                case(prop, "special", k, ctx, r);
+            if ctx.keep(k) {
+                case(prop, "single_byte", k, ctx, r);
+                if k < nt * 64 {
+                    case(prop, "special", k, ctx, r);
+                }
             }
             k += ctx.threads as u64;
         }
@@ -326,6 +429,18 @@ pub fn run(prop: u32, ctx: &Ctx, only: Option<&Only>) -> Report {
     total.merge(drive(ctx, "longrun", q_long, secs * 0.25, |id, r| case(prop, "longrun", id, ctx, r)));
     if ctx.tier_thorough {
         total.merge(drive(ctx, "deeprun", 16, secs * 0.15, |id, r| case(prop, "deeprun", id, ctx, r)));
+    }
+    total.merge(drive(ctx, "mixed", ctx.n(6_000, 6_000), secs * 0.1, |id, r| case(prop, "mixed", id, ctx, r)));
+    // 2^32-step runs: XorShiftRng always (about 10 s on one core); every other
+    // small generator in the thorough tier, one thread per type
+    if ctx.scale >= 1.0 && ctx.tier_thorough && (prop == 4 || prop == 1) {
+        let types = types_of(prop);
+        total.merge(crate::util::par(types.len(), |t, r| {
+            // id chosen so that `case` picks type number t
+            let mut id = ctx.seed.wrapping_mul(0x9e3779b97f4a7c15).wrapping_add(t as u64);
+            while Prng::new(id).below(types.len() as u64) as usize != t { id = id.wrapping_add(0x1000); }
+            super::run_case("wrap32", id, r, &|id, r: &mut Report| case(prop, "wrap32", id, ctx, r));
+        }));
     }
     if prop == 2 || prop == 3 {
         total.merge(drive(ctx, "core", ctx.n(400, 4_000), secs * 0.1, |id, r| case(prop, "core", id, ctx, r)));
